@@ -15,14 +15,16 @@ import (
 	"verif/internal/ev"
 	"verif/internal/gen"
 	"verif/internal/memnet"
+	"verif/internal/refcodec"
 )
 
 type Step struct {
-	Kind string  `json:"kind"` // retain | read | read-goroutine | read-conn | write | conn-retain | conn-read
+	Odd  []byte `json:"odd,omitempty"` // retain-odd: the wire image
+	Kind string `json:"kind"`          // retain | read | read-goroutine | read-conn | write | conn-retain | conn-read
 	// conn-retain / conn-read use ONE connection that lives as long as the case: the message is
 	// delivered in a single segment and (conn-retain) kept by the handler while the connection
 	// goes on receiving.
-	Msg  gen.Msg `json:"msg"`
+	Msg gen.Msg `json:"msg"`
 }
 
 type Case struct {
@@ -62,11 +64,15 @@ func genCase(t *rapid.T) Case {
 		}
 	}
 	n := rapid.IntRange(2, 12).Draw(t, "steps")
+	allBig := rapid.IntRange(0, 11).Draw(t, "all-big") == 0 // a whole history of bodies above the 64 KiB read chunk
+	if allBig {
+		n = rapid.IntRange(2, 5).Draw(t, "big-steps")
+	}
 	// one size class per case most of the time: the pooled buffer is shared by equal-sized reads
 	for i := 0; i < n; i++ {
 		kind := "retain"
 		if i > 0 {
-			kind = rapid.SampledFrom([]string{"retain", "read", "read", "read-goroutine", "read-conn", "write", "conn-retain", "conn-retain", "conn-read", "conn-read"}).Draw(t, "kind")
+			kind = rapid.SampledFrom([]string{"retain", "read", "read", "read-goroutine", "read-conn", "write", "conn-retain", "conn-retain", "conn-read", "conn-read", "retain-odd", "reserialize"}).Draw(t, "kind")
 		}
 		var m gen.Msg
 		m.Flags, m.Code, m.App, m.HbH, m.E2E = cat.Header(t)
@@ -80,24 +86,99 @@ func genCase(t *rapid.T) Case {
 			}
 		}
 		maxBytes := 60
-		if rapid.IntRange(0, 4).Draw(t, "big") == 0 {
+		switch rapid.IntRange(0, 9).Draw(t, "big") {
+		case 0, 1:
 			maxBytes = 1500
+		case 2:
+			maxBytes = 70000 // bodies above the 64 KiB read chunk
+		}
+		if allBig {
+			maxBytes = 70000
 		}
 		m.AVPs = cat.Tree(t, 0, gen.TreeOpts{MaxTop: rapid.IntRange(1, 6).Draw(t, "top"), MaxDepth: 3, OnlyTypes: types, Val: gen.ValueOpts{MaxBytes: maxBytes}})
-		c.Steps = append(c.Steps, Step{Kind: kind, Msg: m})
+		if maxBytes == 70000 {
+			// make sure the body really is above 64 KiB, and keeps a view-typed value
+			big := make([]byte, 66000+i)
+			for k := range big {
+				big[k] = byte(k + i)
+			}
+			m.AVPs = append(m.AVPs, &gen.AVP{Code: 3000007, V: gen.Val{T: gen.TUnknown, B: big}},
+				&gen.AVP{Code: 3000008, V: gen.Val{T: gen.TUnknown, B: []byte{byte(i), 1, 2, 3, 4, 5}}})
+		}
+		st := Step{Kind: kind, Msg: m}
+		if kind == "retain-odd" {
+			st.Odd = oddWire(t)
+		}
+		c.Steps = append(c.Steps, st)
 	}
 	return c
+}
+
+// oddWire draws a message the decoder accepts leniently although it is not in canonical form
+// (fixed-width AVPs of other widths, an IPv4-mapped address under family 2, IPv4/IPv6-typed
+// AVPs of other lengths): its re-encoding differs from the bytes received.
+func oddWire(t *rapid.T) []byte {
+	var nodes []*refcodec.Node
+	n := rapid.IntRange(1, 4).Draw(t, "odd-avps")
+	for i := 0; i < n; i++ {
+		switch rapid.IntRange(0, 4).Draw(t, "odd-kind") {
+		case 0:
+			nodes = append(nodes, &refcodec.Node{Code: 278, Flags: 0x40, Payload: rapid.SliceOfN(rapid.Byte(), 0, 11).Draw(t, "u32-odd")})
+		case 1:
+			mapped := append([]byte{0, 0, 0, 0, 0, 0, 0, 0, 0, 0, 0xff, 0xff}, rapid.SliceOfN(rapid.Byte(), 4, 4).Draw(t, "ip4")...)
+			nodes = append(nodes, &refcodec.Node{Code: 257, Flags: 0x40, Payload: refcodec.Address(2, mapped)})
+		case 2:
+			nodes = append(nodes, &refcodec.Node{Code: 55, Flags: 0x40, Payload: rapid.SliceOfN(rapid.Byte(), 0, 9).Draw(t, "time-odd")})
+		case 3:
+			nodes = append(nodes, &refcodec.Node{Code: 257, Flags: 0x40, Payload: refcodec.Address(8, rapid.SliceOfN(rapid.Byte(), 2, 2).Draw(t, "e164-2"))})
+		default:
+			nodes = append(nodes, &refcodec.Node{Code: 264, Flags: 0x40, Payload: []byte("host.example")})
+		}
+	}
+	return refcodec.EncodeMessage(refcodec.Header{Version: 1, Flags: 0x80, Code: 257, HopByHop: gen.U32(t, "hbh"), EndToEnd: gen.U32(t, "e2e")}, nodes, false)
 }
 
 type retained struct {
 	step int
 	m    *diam.Message
-	want *gen.Msg
+	want *gen.Msg // nil for snapshot-only entries (non-canonical input)
 	ref  []byte
 	str  string
+	hdr  diam.Header
+	avps string // code/flags/vendor/Length/value bytes of every AVP as first observed
+}
+
+func avpSnapshot(avps []*diam.AVP, depth int) string {
+	var b bytes.Buffer
+	for _, a := range avps {
+		fmt.Fprintf(&b, "%d[%d %#x %d %d ", depth, a.Code, a.Flags, a.VendorID, a.Length)
+		if g, ok := a.Data.(*diam.GroupedAVP); ok {
+			b.WriteString(avpSnapshot(g.AVP, depth+1))
+		} else if a.Data != nil {
+			fmt.Fprintf(&b, "%T % x", a.Data, a.Data.Serialize())
+		}
+		b.WriteString("]")
+	}
+	return b.String()
+}
+
+func verifySnapshot(r *retained, after int, what string) *ev.Failure {
+	if *r.m.Header != r.hdr {
+		return ev.Failf("retained-header-changed", "message retained at step %d (non-canonical input, declared length %d): its header changed after step %d (%s): was %+v, is %+v", r.step, r.hdr.MessageLength, after, what, r.hdr, *r.m.Header)
+	}
+	if s := avpSnapshot(r.m.AVP, 0); s != r.avps {
+		return ev.Failf("retained-message-changed", "message retained at step %d (non-canonical input): its AVPs changed after step %d (%s):\n was %s\n is  %s", r.step, after, what, r.avps, s)
+	}
+	if s := r.m.String(); s != r.str {
+		return ev.Failf("retained-message-changed", "message retained at step %d (non-canonical input) renders differently after step %d (%s)", r.step, after, what)
+	}
+	return nil
 }
 
 func verify(r *retained, after int, what string) *ev.Failure {
+	if r.want == nil {
+		return verifySnapshot(r, after, what)
+	}
 	h := r.m.Header
 	if h.Version != 1 || int(h.MessageLength) != len(r.ref) || h.CommandFlags != r.want.Flags || h.CommandCode != r.want.Code ||
 		h.ApplicationID != r.want.App || h.HopByHopID != r.want.HbH || h.EndToEndID != r.want.E2E {
@@ -155,6 +236,19 @@ func runCase(c Case) *ev.Failure {
 		case "read-conn":
 			if f := readThroughConn(p, ref, i); f != nil {
 				return f
+			}
+		case "retain-odd":
+			m, err := diam.ReadMessage(bytes.NewReader(st.Odd), p)
+			if err != nil {
+				break // not accepted under this dictionary: nothing to retain
+			}
+			kept = append(kept, &retained{step: i, m: m, ref: st.Odd, str: m.String(), hdr: *m.Header, avps: avpSnapshot(m.AVP, 0)})
+		case "reserialize":
+			// the application relays / traces what it kept: writing a message must not alter it
+			for _, r := range kept {
+				r.m.Serialize()
+				var w bytes.Buffer
+				r.m.WriteTo(&w)
 			}
 		case "conn-retain", "conn-read":
 			if pc == nil {
@@ -288,6 +382,9 @@ var prop = ev.Register(&ev.Prop[Case]{
 				}
 				if !small {
 					cl = append(cl, "retained-body>1KiB")
+				}
+				if bodyLen(&s.Msg) > 64<<10 {
+					cl = append(cl, "retained-body>64KiB")
 				}
 			}
 		}
